@@ -220,6 +220,46 @@ func TestVerifC16(t *testing.T) {
 	}
 }
 
+// TestVerifC16Epoch: the countdown runs from the instant handed to config.Parse, and on the SAME clock: the
+// daemon passes time.Now(), whose monotonic reading makes "epoch + lifetime - now" immune to steps of the
+// wall clock (NTP corrections, a board without RTC getting its date).  The parsed plugin values must hold that
+// very instant -- wall time, sub-second part and monotonic reading.
+func TestVerifC16Epoch(t *testing.T) {
+	out := verifh.Open()
+	defer out.Close()
+	if !out.Wants("c16-epoch-identity") {
+		return
+	}
+	epoch := time.Now()
+	var viol []string
+	doc := "[[interfaces]]\nname = \"eth0\"\nadvertise = true\n  [[interfaces.prefix]]\n  prefix = \"2001:db8::/64\"\n  deprecated = true\n" +
+		"  [[interfaces.route]]\n  prefix = \"2001:db8::/32\"\n  deprecated = true\n"
+	cfg, err := config.Parse(strings.NewReader(doc), epoch)
+	if err != nil {
+		t.Fatal(err)
+	}
+	for _, pl := range cfg.Interfaces[0].Plugins {
+		var got time.Time
+		switch p := pl.(type) {
+		case *plugin.Prefix:
+			got = p.Epoch
+		case *plugin.Route:
+			got = p.Epoch
+		default:
+			continue
+		}
+		// == on time.Time compares the wall and the monotonic readings (and the location pointer)
+		if got != epoch {
+			viol = append(viol, fmt.Sprintf("%s: the epoch handed to Parse was %v, the plugin holds %v", pl.Name(), epoch, got))
+		}
+		if strings.Contains(epoch.String(), " m=") && !strings.Contains(got.String(), " m=") {
+			viol = append(viol, pl.Name()+": the plugin's epoch lost the monotonic clock reading: a step of the wall clock would move the deadline")
+		}
+	}
+	out.Emit(verifh.Case{ID: "c16-epoch-identity", Input: map[string]any{"kind": "epoch-identity"}, Observed: epoch.String(),
+		Tags: []string{"stream:epoch-identity"}, ImplViolation: strings.Join(viol, "; ")})
+}
+
 // c16Parse runs config.Parse on a one-interface document with the given plugin stanza and epoch and
 // returns the single non-LLA plugin it produced (nil when the parser refuses the document).
 func c16Parse(t *testing.T, epoch int64, stanza string) plugin.Plugin {
